@@ -8,10 +8,10 @@ CHECKS = {
    text="Held on every (key, server set, change) triple executed: ~6e5 quick / ~2e7 thorough triples over hostile keys and 1..16 servers. A metamorphic oracle needs no re-implementation of the hash, so it cannot share a bug with it.",
    note="Trusted: Go's slices/cmp; score ties (2^-64) are unobserved.", ref="4 C13"),
  "C19": dict(level="exploration", technique="round-trip / injectivity / all-pairs order oracle + scan-vs-definition oracle on both storage back ends, under -race (checkptr)",
-   text="All-pairs order and round-trip over boundary pools (~3e6 pairs quick), every vector length 1..4096, all key families, RangeScan/PrefixScan on bbolt and memory compared with the value-level definition.",
+   text="All-pairs order and round-trip over boundary pools (~3e6 pairs quick), every vector length 1..4096, all key families (term keys up to 70001 bytes, pairs differing in the last byte only), RangeScan/PrefixScan on bbolt and memory compared with the value-level definition.",
    note="Trusted: bytes.Compare, math.Float64bits. NaN excluded as the property states.", ref="4 C19"),
  "C20": dict(level="exploration", technique="differential oracle vs float64 reference on every length 1..4096 with operands against PROT_NONE guard pages (child per block)",
-   text="Every length x placements x distributions incl. one-hot spikes; hamming/jaccard through the binary store for every bit length; product-quantiser point-to-point and float-to-point distances against the metric on the persisted centroids (3 metrics x 5 shapes); forward-error bound derived from the operation count; guard pages turn any over/under-read of the assembly kernels into a fatal fault that the parent classifies.",
+   text="Every length x placements x distributions incl. one-hot spikes, denormal x large and tiny components (the bound follows gradual underflow, so flush-to-zero / denormals-are-zero kernels are refuted); hamming/jaccard through the binary store for every bit length; product-quantiser point-to-point and float-to-point distances against the metric on the persisted centroids (3 metrics x 5 shapes, training data shifted far from the origin for a third of them); forward-error bound derived from the operation count; guard pages turn any over/under-read of the assembly kernels into a fatal fault that the parent classifies.",
    note="Trusted: float64 reference, mmap/mprotect. Only the kernels selected on this CPU (AVX2+FMA assembly) are exercised; the pure-Go fallback is covered by the same oracle only on machines without AVX2.", ref="4 C20"),
 }
 NOT_YET = {}
